@@ -20,6 +20,8 @@ type Walker struct {
 	MaxSteps int  // dereference budget (default 20000)
 	MaxDepth int  // stop descending below this depth (default 100)
 
+	InSegs     func(b []byte) bool // optional: address check for slices handed out by Text/Data accessors
+	TotalElems int                 // sum of |Len()| over all lists reached
 	Steps      int
 	OK         int            // successful non-null dereferences
 	Errs       map[string]int // API error strings (normalised)
@@ -67,6 +69,10 @@ func isBounds(err error) bool {
 func (w *Walker) Root(msg *capnp.Message) error {
 	w.init()
 	p, err := msg.Root()
+	if w.D == nil {
+		w.apiWalk(p, err, 0)
+		return nil
+	}
 	return w.Ptr(p, err, 0, 0, 0, "root")
 }
 
@@ -277,6 +283,11 @@ func (w *Walker) list(p capnp.Ptr, l capnp.List, t ref.Target, depth int, path s
 	seg, word := t.Seg, t.Word
 	segWords := len(w.D.Segs[seg]) / 8
 	w.Kinds[fmt.Sprintf("list%d", lk)]++
+	if n := l.Len(); n >= 0 {
+		w.TotalElems += n
+	} else {
+		w.TotalElems -= n
+	}
 	oob := func(words int) error {
 		if word < 0 || words < 0 || word+words > segWords {
 			return pbt.Fail("api-accepts-out-of-bounds/list", "%s: API accepted a list (kind %d, count %d) whose extent [%d,%d) words is outside segment %d (%d words)", path, lk, count, word, word+words, seg, segWords)
@@ -347,6 +358,12 @@ func (w *Walker) list(p capnp.Ptr, l capnp.List, t ref.Target, depth int, path s
 		if sz == 1 {
 			// Text / Data views
 			d := p.Data()
+			if w.InSegs != nil && !w.InSegs(d) {
+				return pbt.Fail("slice-outside-segments/data", "%s: Data() returned a slice that does not lie inside a supplied segment", path)
+			}
+			if tb := p.TextBytes(); w.InSegs != nil && !w.InSegs(tb) {
+				return pbt.Fail("slice-outside-segments/text", "%s: TextBytes() returned a slice that does not lie inside a supplied segment", path)
+			}
 			if !bytes.Equal(d, raw) {
 				return pbt.Fail("data-bytes", "%s: Data() returned %d bytes %x want %x", path, len(d), clip(d), clip(raw))
 			}
@@ -457,4 +474,83 @@ func clip(b []byte) []byte {
 		return b[:64]
 	}
 	return b
+}
+
+// apiWalk explores the message through the API alone (no reference decoder):
+// used when the bytes are not available to the harness (e.g. arenas that fail).
+func (w *Walker) apiWalk(p capnp.Ptr, perr error, depth int) {
+	w.Steps++
+	if w.Steps > w.MaxSteps || depth > w.MaxDepth {
+		w.Truncated = true
+		return
+	}
+	if perr != nil {
+		w.Errs[NormErr(perr)]++
+		return
+	}
+	if !p.IsValid() {
+		return
+	}
+	w.OK++
+	if s := p.Struct(); s.IsValid() {
+		w.apiStruct(s, depth)
+		return
+	}
+	if l := p.List(); l.IsValid() {
+		n := l.Len()
+		if n < 0 {
+			w.TotalElems -= n
+			return
+		}
+		w.TotalElems += n
+		_ = p.Data()
+		_ = p.TextBytes()
+		_ = p.Text()
+		for _, i := range sampleIdx(n) {
+			_ = capnp.BitList{List: l}.At(i)
+			_ = capnp.UInt8List{List: l}.At(i)
+			_ = capnp.UInt16List{List: l}.At(i)
+			_ = capnp.UInt32List{List: l}.At(i)
+			_ = capnp.UInt64List{List: l}.At(i)
+			c, err := capnp.PointerList{List: l}.At(i)
+			if err == nil {
+				w.apiWalk(c, nil, depth+1)
+			}
+			if s := l.Struct(i); s.IsValid() {
+				w.apiStruct(s, depth)
+			}
+			if w.Steps > w.MaxSteps {
+				return
+			}
+		}
+		return
+	}
+	if i := p.Interface(); i.IsValid() {
+		_ = i.Capability()
+		_ = i.Client()
+	}
+}
+
+func (w *Walker) apiStruct(s capnp.Struct, depth int) {
+	sz := s.Size()
+	for _, o := range []int{0, 1, 7, 8, int(sz.DataSize) - 1, int(sz.DataSize), 1<<19 - 1} {
+		if o < 0 {
+			continue
+		}
+		_ = s.Uint8(capnp.DataOffset(o))
+		_ = s.Uint16(capnp.DataOffset(o))
+		_ = s.Uint32(capnp.DataOffset(o))
+		_ = s.Uint64(capnp.DataOffset(o))
+		if o < 1<<18 {
+			_ = s.Bit(capnp.BitOffset(o * 8))
+		}
+	}
+	for i := 0; i <= int(sz.PointerCount) && i < 70000; i++ {
+		_ = s.HasPtr(uint16(i))
+		c, err := s.Ptr(uint16(i))
+		w.apiWalk(c, err, depth+1)
+		if w.Steps > w.MaxSteps {
+			return
+		}
+	}
 }
